@@ -167,8 +167,25 @@ enum Act {
     Attack(f32),
     Release(f32),
 }
-const TIMES: [f32; 6] = [0.0, 0.5, 1.0, 2.5, 100.0, 1e6];
+// (1e8 frames: exp(-1/t) rounds to exactly 1.0 in f32; infinity: the envelope holds)
+const TIMES: [f32; 8] = [0.0, 0.5, 1.0, 2.5, 100.0, 1e6, 1e8, f32::INFINITY];
 const SET_TIMES: [f32; 3] = [0.0, 2.5, 1e6];
+
+/// a time constant in a case description (JSON has no infinity)
+fn tj(t: f32) -> Value {
+    if t.is_finite() {
+        json!(t)
+    } else {
+        json!("inf")
+    }
+}
+fn tp(v: &Value) -> f32 {
+    if v == "inf" {
+        f32::INFINITY
+    } else {
+        v.as_f64().unwrap_or(0.0) as f32
+    }
+}
 
 fn gain_ref(t: f32) -> f64 {
     if t == 0.0 {
@@ -287,11 +304,17 @@ fn families() -> Vec<Family> {
             let a2 = alpha.clone();
             v.push(Family {
                 name: $name,
-                run: Box::new(move |atk, rel, acts| follow::<$F, _>($name, &alpha, &$mk, atk, rel, acts)),
+                run: Box::new(move |atk, rel, acts| match catch(|| follow::<$F, _>($name, &alpha, &$mk, atk, rel, acts)) {
+                    Ok(r) => r,
+                    // a panic (an overflow check, a debug assertion) where the property promises an output
+                    Err(p) => Err(("env.panic".into(), format!("{} attack {atk} release {rel} history {acts:?}: panicked: {p}", $name))),
+                }),
                 conv: Box::new(move |atk, rel| {
                     for x in &a2 {
-                        if let Some(b) = converge::<$F, _>($name, *x, &$mk, atk, rel) {
-                            return Some(b);
+                        match catch(|| converge::<$F, _>($name, *x, &$mk, atk, rel)) {
+                            Ok(None) => {}
+                            Ok(Some(b)) => return Some(b),
+                            Err(p) => return Some(("env.panic".into(), format!("{} attack {atk} release {rel}, constant input {x:?}: panicked: {p}", $name))),
                         }
                     }
                     None
@@ -452,9 +475,9 @@ fn main() {
                 by!("i8" => i8, "i16" => i16, "I24" => I24, "i32" => i32, "I48" => I48, "i64" => i64, "u8" => u8, "u16" => u16, "U24" => U24, "u32" => u32, "U48" => U48, "u64" => u64)
             }
             "rect_float" => rect_float(v["bits"].as_u64().unwrap_or(0) as u32),
-            "adaptor" => adaptor_case(v["atk"].as_f64().unwrap_or(0.0) as f32, v["rel"].as_f64().unwrap_or(0.0) as f32, &v["idx"].as_array().map(|a| a.iter().map(|x| x.as_u64().unwrap_or(0) as usize).collect::<Vec<_>>()).unwrap_or_default()).map(|e| e.1),
-            "converge" => fams.iter().find(|f| Some(f.name) == v["family"].as_str()).and_then(|f| (f.conv)(v["atk"].as_f64().unwrap_or(0.0) as f32, v["rel"].as_f64().unwrap_or(0.0) as f32)).map(|e| e.1),
-            _ => fams.iter().find(|f| Some(f.name) == v["family"].as_str()).and_then(|f| catch(|| (f.run)(v["atk"].as_f64().unwrap_or(0.0) as f32, v["rel"].as_f64().unwrap_or(0.0) as f32, &acts_parse(&v["actions"]))).unwrap_or_else(|p| Err(("panic".into(), p))).err()).map(|e| format!("{}: {}", e.0, e.1)),
+            "adaptor" => adaptor_case(tp(&v["atk"]), tp(&v["rel"]), &v["idx"].as_array().map(|a| a.iter().map(|x| x.as_u64().unwrap_or(0) as usize).collect::<Vec<_>>()).unwrap_or_default()).map(|e| e.1),
+            "converge" => fams.iter().find(|f| Some(f.name) == v["family"].as_str()).and_then(|f| (f.conv)(tp(&v["atk"]), tp(&v["rel"]))).map(|e| e.1),
+            _ => fams.iter().find(|f| Some(f.name) == v["family"].as_str()).and_then(|f| catch(|| (f.run)(tp(&v["atk"]), tp(&v["rel"]), &acts_parse(&v["actions"]))).unwrap_or_else(|p| Err(("panic".into(), p))).err()).map(|e| format!("{}: {}", e.0, e.1)),
         };
         ctx.finish_replay(r);
     }
@@ -518,7 +541,7 @@ fn main() {
         let mut fps = Vec::new();
         for (hi, h) in all.iter().enumerate() {
             if hi % 512 == 0 {
-                let _guard_scope = guard::scoped(&json!({"sys":"follow","family":f.name,"atk":atk,"rel":rel,"actions":acts_json(h)}).to_string());
+                let _guard_scope = guard::scoped(&json!({"sys":"follow","family":f.name,"atk":tj(atk),"rel":tj(rel),"actions":acts_json(h)}).to_string());
             }
             match catch(|| (f.run)(atk, rel, h)) {
                 Ok(Ok(fp)) => {
@@ -527,19 +550,19 @@ fn main() {
                     }
                 }
                 Ok(Err((k, m))) => {
-                    let case = json!({"sys":"follow","family":f.name,"atk":atk,"rel":rel,"actions":acts_json(h)});
+                    let case = json!({"sys":"follow","family":f.name,"atk":tj(atk),"rel":tj(rel),"actions":acts_json(h)});
                     ctx.violation(&k, case, m, Some(&|| (f.run)(atk, rel, h).err().map(|e| e.1)));
                     break;
                 }
                 Err(p) => {
-                    ctx.violation("env.panic", json!({"sys":"follow","family":f.name,"atk":atk,"rel":rel,"actions":acts_json(h)}), format!("{}: panicked: {p}", f.name), None);
+                    ctx.violation("env.panic", json!({"sys":"follow","family":f.name,"atk":tj(atk),"rel":tj(rel),"actions":acts_json(h)}), format!("{}: panicked: {p}", f.name), None);
                     break;
                 }
             }
         }
         evals.fetch_add((all.len() * depth) as u64, Relaxed);
         if let Some((k, m)) = (f.conv)(atk, rel) {
-            ctx.violation(&k, json!({"sys":"converge","family":f.name,"atk":atk,"rel":rel}), m, None);
+            ctx.violation(&k, json!({"sys":"converge","family":f.name,"atk":tj(atk),"rel":tj(rel)}), m, None);
         }
         ctx.observe_many(fps);
         guard::leave();
@@ -568,8 +591,12 @@ fn main() {
             for code in 0..125usize {
                 let idx: Vec<usize> = (0..3).map(|j| (code / 5usize.pow(j)) % 5).collect();
                 evals.fetch_add(1, Relaxed);
-                if let Some((k, m)) = adaptor_case(atk, rel, &idx) {
-                    ctx.violation(&k, json!({"sys":"adaptor","atk":atk,"rel":rel,"idx":idx}), m, None);
+                let case = json!({"sys":"adaptor","atk":tj(atk),"rel":tj(rel),"idx":idx});
+                let _guard_scope = guard::scoped(&case.to_string());
+                match catch(|| adaptor_case(atk, rel, &idx)) {
+                    Ok(None) => {}
+                    Ok(Some((k, m))) => ctx.violation(&k, case, m, None),
+                    Err(p) => ctx.violation("env.panic", case, format!("detect_envelope adaptor, attack {atk} release {rel}, input letters {idx:?}: panicked: {p}"), None),
                 }
             }
         }
@@ -583,8 +610,12 @@ fn main() {
                 for set_at in 0..4usize {
                     for (set_attack, t) in [(true, 0.0f32), (true, 2.5), (false, 0.0), (false, 100.0)] {
                         ctor_n += 1;
-                        if let Some((k, m)) = ctor_case(atk, rel, &idx, set_at, set_attack, t) {
-                            ctx.violation(&k, json!({"sys":"ctor","atk":atk,"rel":rel,"idx":idx,"set_at":set_at,"set_attack":set_attack,"t":t}), m, None);
+                        let case = json!({"sys":"ctor","atk":tj(atk),"rel":tj(rel),"idx":idx,"set_at":set_at,"set_attack":set_attack,"t":t});
+                        let _guard_scope = guard::scoped(&case.to_string());
+                        match catch(|| ctor_case(atk, rel, &idx, set_at, set_attack, t)) {
+                            Ok(None) => {}
+                            Ok(Some((k, m))) => ctx.violation(&k, case, m, None),
+                            Err(p) => ctx.violation("env.panic", case, format!("constructor / setter case, attack {atk} release {rel}: panicked: {p}"), None),
                         }
                     }
                 }
@@ -596,7 +627,7 @@ fn main() {
     ctx.add_evals(evals.load(Relaxed));
     ctx.set("exhaustive", json!(false));
     ctx.set("exhaustive_scope", json!("rectifiers: every value of the <=24-bit integer formats (thorough: <=32-bit and every f32), lattice above; follower: every history over the finite action alphabet to the stated depth"));
-    ctx.rule(&format!("rectifiers: full_wave / positive_half_wave / negative_half_wave (functions and Rectifier structs, bare samples and 3-channel frames) over every value of i8 u8 i16 u16 I24 U24 (thorough: i32 u32 too), lattice for wider formats, f32 patterns (thorough: all) and their f64 widening; oracle |signed amplitude| (the value whose negation is unrepresentable excluded) and clamp to the upper / lower side of equilibrium; follower: 20 detector families (peak x 3 rectifiers and RMS windows 1..3 over f32, [f64;2], [i16;1], [u8;2], plus three RMS families over cancellation letters such as 1.0, 1e-5, 1e-9 / 32767, 1) x attack, release in {{0,0.5,1,2.5,100,1e6}}^2 x every history of length {depth} over {{next(5 letters), set_attack(3), set_release(3)}}; per step from the OBSERVED previous output l and the detected value d (second instance of the real detect component): out == d + g(l-d) with g = exp(-1/t) (attack iff l<d) within 1 LSB / 4 ulp + 4 ulp(f32) of the gain, between l and d, == d when t = 0; constant input: the distance to the detected value never grows; soak probes: one deterministic history of 3000 (thorough 30000) steps per family; detect_envelope adaptor (incl. its setters) == direct detector, one pull per output; Detector::peak / peak_positive_half_wave / peak_negative_half_wave / peak_from_rectifier / rms == Detector::new over the same component for every (attack, release) pair, 3-frame input and setter position"));
+    ctx.rule(&format!("rectifiers: full_wave / positive_half_wave / negative_half_wave (functions and Rectifier structs, bare samples and 3-channel frames) over every value of i8 u8 i16 u16 I24 U24 (thorough: i32 u32 too), lattice for wider formats, f32 patterns (thorough: all) and their f64 widening; oracle |signed amplitude| (the value whose negation is unrepresentable excluded) and clamp to the upper / lower side of equilibrium; follower: 20 detector families (peak x 3 rectifiers and RMS windows 1..3 over f32, [f64;2], [i16;1], [u8;2], plus three RMS families over cancellation letters such as 1.0, 1e-5, 1e-9 / 32767, 1) x attack, release in {{0,0.5,1,2.5,100,1e6,1e8,inf}}^2 x every history of length {depth} over {{next(5 letters), set_attack(3), set_release(3)}}; per step from the OBSERVED previous output l and the detected value d (second instance of the real detect component): out == d + g(l-d) with g = exp(-1/t) (attack iff l<d) within 1 LSB / 4 ulp + 4 ulp(f32) of the gain, between l and d, == d when t = 0; constant input: the distance to the detected value never grows; soak probes: one deterministic history of 3000 (thorough 30000) steps per family; detect_envelope adaptor (incl. its setters) == direct detector, one pull per output; Detector::peak / peak_positive_half_wave / peak_negative_half_wave / peak_from_rectifier / rms == Detector::new over the same component for every (attack, release) pair, 3-frame input and setter position"));
     ctx.sample(json!({"sys":"follow","family":"[u8;2] peak negative","atk":2.5,"rel":0.0,"actions":["next:2","attack:0","next:4","next:1"]}));
     ctx.sample(json!({"sys":"rect","fmt":"U24","v":"8388607"}));
     ctx.assume("integer input alphabets of the follower exclude the format's minimum: the follower negates the detected value and forms l - d, which is representable for every other amplitude");
